@@ -67,13 +67,23 @@ def mk_routine(i, name=None):
     return GService(name or f"routine{i}", rq)
 
 
+def mk_nibbles(i, name=None):
+    """services told apart by a byte that two coded constants of four bits each make up"""
+    from contracts import build as B
+    rq = B.request([B.coded_const("sid", 0x31, 0), B.coded_const("hi", (i + 1) % 16, 1, 4, bit_position=4),
+                    B.coded_const("lo", 0xB, 1, 4, bit_position=0), B.value_param("arg", B.dop("u8a", 8), 2)],
+                   name=f"rq{i}")
+    return GService(name or f"routine{i}", rq)
+
+
 EDITS = ["none", "add", "delete", "rename", "change-param"]
 
 
 def _fam(tier, seed):
     return [{"k": k, "edit": e, "requests": "ghost"} for k in ((1, 2, 3) if tier == "quick" else (1, 2, 3, 4))
             for e in EDITS] + \
-           [{"k": 2, "edit": e, "requests": "real-phys-const"} for e in ("none", "add", "delete", "rename")]
+           [{"k": 2, "edit": e, "requests": r} for e in ("none", "add", "delete", "rename")
+            for r in ("real-phys-const", "real-nibble-consts")]
 
 
 @harness(props=["C18"], strength="B", family=_fam,
@@ -84,7 +94,7 @@ def _fam(tier, seed):
 def single_edit_is_reported_as_such(k, edit, requests):
     """compare(new, old): no change for identical layers; an added / deleted / renamed service or a changed parameter is
     reported as exactly that kind of change for exactly that service"""
-    mk = mk_service if requests == "ghost" else mk_routine
+    mk = mk_service if requests == "ghost" else (mk_routine if requests == "real-phys-const" else mk_nibbles)
     old = GLayer("layer", [mk(i) for i in range(k)])
     idx = H.pick("which", list(range(k)))
     new_services = [mk(i) for i in range(k)]
@@ -158,6 +168,12 @@ def parameter_comparison(attr):
             len(r["Old Value"]) == len(expected) and len(r["New Value"]) == len(expected))
 
 
+class NamedThing:
+
+    def __init__(self, short_name):
+        self.short_name = short_name
+
+
 class GDDDS:
 
     def __init__(self, n):
@@ -184,7 +200,8 @@ def layer_overview_counts(nsvc, ndop, ncp):
     raw.services = [mk_service(i) for i in range(nsvc)]
     L.diag_layer_raw = raw
     L._diag_data_dictionary_spec = GDDDS(ndop)
-    L.comparam_refs = list(range(ncp))
+    # (the same parameter may apply several times - for several protocols: every instance counts)
+    L.comparam_refs = [NamedThing(f"CP_{i // 2}") for i in range(ncp)]
     print_dl_metrics([L])
     rows = H.events("table_row")
     H.cover("done")
